@@ -175,6 +175,10 @@ func parseDNSSL(d rawDNSSL, maxInterval time.Duration) (*plugin.DNSSL, error) {
 	// Make sure all domain names are unique.
 	seen := make(map[string]struct{})
 	for _, d := range d.DomainNames {
+		if d == "" {
+			return nil, errors.New("domain names must not be empty")
+		}
+
 		if _, ok := seen[d]; ok {
 			return nil, fmt.Errorf("domain name %q cannot be specified multiple times", d)
 		}
